@@ -199,10 +199,26 @@ func (runInfo *runInfoStruct) invokeLetItemSlice(expr *ast.ItemExpr, item reflec
 			runInfo.rv = nilValue
 			return
 		}
+		// with spare capacity the append writes into storage other slices may
+		// share: remember what it overwrites, so that a failing store of the grown
+		// slice (a target that cannot be assigned) leaves every container unchanged
+		var slot, old reflect.Value
+		if item.Cap() > item.Len() {
+			slot = item.Slice(0, index+1).Index(index)
+			old = reflect.New(slot.Type()).Elem()
+			old.Set(slot)
+		}
 		item = reflect.Append(item, value)
 		runInfo.rv = item
 		runInfo.expr = expr.Item
 		runInfo.invokeLetExpr()
+		if runInfo.err != nil {
+			if slot.IsValid() {
+				slot.Set(old)
+			}
+			runInfo.rv = nilValue
+			return
+		}
 		runInfo.rv = item.Index(index)
 		return
 	}
